@@ -233,7 +233,8 @@ dt_strp(const char *str, char **on, size_t len)
 		}
 		goto nul;
 	case '1':
-		if ((uint8_t)(*sp ^ '0') < 10U) {
+		/* there's no month beyond the twelfth, in any calendar */
+		if ((uint8_t)(*sp ^ '0') < 3U) {
 			tmp = 10U + (*sp++ ^ '0');
 			break;
 		}
@@ -273,6 +274,10 @@ dt_strp(const char *str, char **on, size_t len)
 		goto nul;
 	} else if ((uint8_t)(*sp ^ '0') < 10U) {
 		tmp += *sp++ ^ '0';
+		if (UNLIKELY(tmp > 31U)) {
+			/* nor a day beyond the thirty-first */
+			goto nul;
+		}
 		res.d = tmp;
 	} else {
 		goto nul;
